@@ -9,7 +9,16 @@ from . import core
 PROP = "C13"
 DRIVER = "drv_collect"
 LEAN_MODULES = ["MesaModel.Props.C13"]
-THEOREMS = []
+THEOREMS = [
+    "Mesa.Batch.C13_kwargs_product",
+    "Mesa.Batch.C13_single_values",
+    "Mesa.Batch.C13_run_list",
+    "Mesa.Batch.C13_parallel_perm_serial",
+    "Mesa.Batch.C13_steps_taken",
+    "Mesa.Batch.C13_rows_from_one_collection",
+    "Mesa.Batch.C13_last_state_reported",
+    "Mesa.Batch.C13_reported_collections",
+]
 COUNTS = {"quick": 1500, "thorough": 30000}
 TRUSTED = [
     "multiprocessing (spawn) + pickle hand every run tuple to exactly one worker and every result list back once, in some order; modelled as a permutation of the run list (exercised with number_processes 2 and 3 on every run)",
